@@ -312,25 +312,55 @@ def translate():
             out.add(c)
         return out
 
+    def _bool_guard(body, pos, cl):
+        """the condition under which the statement at `pos` of `body` runs, as a boolean formula over the atoms `cl`
+        names: let-bindings expanded, `if !g {A} else {B}` read as `if g {B} else {A}` (tools/rustmini.py)"""
+        import rustmini as R
+        try:
+            gs = R.enclosing_guard(body, pos)
+            text = " && ".join("(%s)" % g for g in gs) or "true"
+            return R, R.parse_bool(text, cl, R.let_bindings(body))
+        except R.Unrecognised as ex:
+            raise F.Unreadable(str(ex))
+
+    def _side_cl(t):
+        t0 = "".join(t.split())
+        import rustmini as R
+        while t0.startswith("(") and R.match_brace(t0, 0, "(", ")") == len(t0) - 1:
+            t0 = t0[1:-1]
+        if t0 == "true":
+            return True
+        if "status_line" in t0 and re.search(r"\(100\.\.200\)\.contains\(&?\w+\)|\(100\.\.=199\)\.contains\(&?\w+\)", t0):
+            return "interim"
+        if re.search(r"keep_alive_backend$", t0):
+            return "keep_alive_backend"
+        if re.search(r"keep_alive_frontend$", t0):
+            return "keep_alive_frontend"
+        if re.search(r"\bfront\)*\.is_terminated\(\)$", t0):
+            return "front_terminated"
+        if re.search(r"\bfront\)*\.is_completed\(\)$", t0):
+            return "front_completed"
+        if re.search(r"\bback\)*\.is_terminated\(\)$", t0):
+            return "back_terminated"
+        return None
+
     def park():
-        body = F.fn_body(h1, "end_stream")
-        at = body.find("BackendStatus::KeepAlive;")
-        ma = list(re.finditer(r"\*\s*\w+\s*=\s*BackendStatus::KeepAlive\s*;", body))
-        if len(ma) != 1:
-            raise F.Unreadable("%d assignments of BackendStatus::KeepAlive" % len(ma))
-        ifs = [x.start() for x in re.finditer(r"\bif\s", body[:ma[0].start()])]
-        if not ifs:
-            raise F.Unreadable("no condition guards the parking")
-        cond = body[ifs[-1] + 2:body.rfind("{", 0, ma[0].start())]
-        got = conjuncts(cond, lets(body[:ifs[-1]]))
-        need = {"stream.front.is_terminated()", "stream.front.is_completed()", "stream.back.is_terminated()"}
-        if not need <= got:
-            return "the backend connection is parked on %r: the request side (front terminated and completely written) and the response side must all be finished" % sorted(got)
-        if not any(c.endswith("keep_alive_backend") for c in got) or "!interim" not in got:
-            return "the backend connection is parked on %r" % sorted(got)
-        extra = {c for c in got if c not in need and not c.endswith("keep_alive_backend") and c != "!interim"}
-        if extra:
-            return "the parking rule has other conditions %r" % sorted(extra)
+        import rustmini as R0
+        body, _ = R0.fn_body(R0.strip(open(os.path.join(vlib.REPO, "lib/src/protocol/mux/h1.rs")).read()), "end_stream")
+        ps = [m.start() for m in re.finditer(r"=\s*BackendStatus::KeepAlive\s*;", body)]
+        if len(ps) != 1:
+            raise F.Unreadable("%d assignments of BackendStatus::KeepAlive" % len(ps))
+        R, e = _bool_guard(body, ps[0], _side_cl)
+        A = lambda n: ("atom", n)
+        want = ("and", ("and", ("and", ("and", A("keep_alive_backend"), A("back_terminated")), ("not", A("interim"))), A("front_terminated")), A("front_completed"))
+        if R.bool_equiv(e, want):
+            return None
+        missing = [n for n in ("keep_alive_backend", "back_terminated", "front_terminated", "front_completed") if not R.bool_implies(e, A(n))]
+        if not R.bool_implies(e, ("not", A("interim"))):
+            missing.append("not interim")
+        if missing:
+            return "the backend connection can be parked without %s (the request side, the response side and `no interim response pending` must all hold)" % ", ".join(missing)
+        return "the parking rule has other conditions than the modelled ones (atoms %r)" % sorted(R.bool_atoms(e))
     _fact(fails, "h1.rs ConnectionH1::end_stream", "KeepAlive iff keep_alive_backend, response terminated, no interim in the buffer, request terminated and completely written", park, hard=True)
 
     def h2_end():
@@ -350,27 +380,28 @@ def translate():
     _fact(fails, "h2.rs ConnectionH2::end_stream (client side)", "RST_STREAM unless response ended and request terminated, or already reset", h2_end, hard=True)
 
     def front_reset():
-        mw = re.search(r"stream\.front\.clear\(\)\s*;", h1)
+        import rustmini as R0
+        try:
+            body, _ = R0.fn_body(R0.strip(open(os.path.join(vlib.REPO, "lib/src/protocol/mux/h1.rs")).read()), "writable")
+        except R0.Unrecognised as ex:
+            raise F.Unreadable(str(ex))
+        mw = re.search(r"stream\.front\.clear\(\)\s*;", body)
         if not mw:
-            raise _absent("the keep-alive reset of the frontend slot (stream.front.clear()) is not found")
-        ifs = [x.start() for x in re.finditer(r"\bif\s", h1[:mw.start()])]
-        # the guarding `if` is the last one whose block is still open at the reset
-        guard = None
-        for st in reversed(ifs):
-            ob = h1.find("{", st)
-            if ob < 0 or ob > mw.start():
-                continue
-            try:
-                if F.matching(h1, ob) > mw.start():
-                    guard = (st, ob)
-                    break
-            except F.Unreadable:
-                continue
-        if guard is None:
-            raise F.Unreadable("no condition guards the keep-alive reset")
-        got = conjuncts(h1[guard[0] + 2:guard[1]], lets(h1[max(0, guard[0] - 4000):guard[0]]))
-        if "stream.front.is_terminated()" not in got:
-            return "the slot is reset for a next request on %r: the request must have been received to its end (front.is_terminated())" % sorted(got)
+            raise F.Unreadable("the keep-alive reset of the frontend slot (stream.front.clear()) is not found in writable")
+        binds = R0.let_bindings(body)
+
+        def cl(t):
+            c = _side_cl(t)
+            if c is not None:
+                return c
+            t0 = "".join(t.split())
+            if re.fullmatch(r"\w+", t0) and t0 in binds:
+                return None          # a let-bound name stands for its definition
+            # any other condition on the way to the reset is an opaque atom of its own
+            return "other:" + t0
+        R, e = _bool_guard(body, mw.start(), cl)
+        if not R.bool_implies(e, ("atom", "front_terminated")):
+            return "the slot can be reset for a next request while the request was not received to its end (front.is_terminated() is not implied by the guard)"
     _fact(fails, "h1.rs keep-alive reset (writable)", "the slot is only reset when the request was received to its end", front_reset, hard=True)
 
     _fact(fails, "h2.rs handle_data_frame / trailers", "reset when total > declared on any DATA, and when total != declared at END_STREAM (DATA or trailers)", ledger)
